@@ -163,7 +163,7 @@ def b_positions(tier, seed):
     rnd = random.Random(seed)
     docs = generated_documents(tier, seed, n_random=25 if tier != "thorough" else 300)
     for key, root, path in docs:
-        for rep in range(1 if tier != "thorough" else 3):
+        for rep in range(2 if tier != "thorough" else 4):
             st = RandomStyle(random.Random(rnd.random())) if rep else None
             text = gen.render(root, style=st)
             try:
@@ -552,6 +552,36 @@ def b_fuzz(tier, seed):
         n += 1
         if best > 3.0 and sizes[1] > 0.05:
             fails.append(dict(key=f"timing:{name}", ratio=round(best, 2), seconds=[round(x, 3) for x in sizes]))
+    # catastrophic backtracking shows at small sizes: run in a child process that can be killed
+    import multiprocessing as mp
+    for name, mk in (("unterminated-dq+backslashes", lambda k: 'MAP NAME "abc' + "\\\\" * k + " END"),
+                     ("unterminated-sq+backslashes", lambda k: "MAP NAME 'abc" + "\\\\" * k + " END"),
+                     ("unterminated-regex+slashes", lambda k: "CLASS EXPRESSION /a" + "\\/" * k + " END"),
+                     ("nested-parens", lambda k: "CLASS EXPRESSION " + "(" * k + "[a]" + " END")):
+        times = []
+        for k in (14, 28):
+            n += 1
+            q = mp.get_context("fork").Queue()
+
+            def child(text=mk(k)):
+                t0 = time.perf_counter()
+                try:
+                    L(text)
+                except Exception:
+                    pass
+                q.put(time.perf_counter() - t0)
+            pr = mp.get_context("fork").Process(target=child)
+            pr.start()
+            pr.join(20)
+            if pr.is_alive():
+                pr.kill()
+                pr.join()
+                fails.append(dict(key=f"timing:{name}", size=k, error="loads did not return within 20 s"))
+                times = None
+                break
+            times.append(q.get() if not q.empty() else 0.0)
+        if times and times[1] > 1.0 and times[1] / max(times[0], 1e-3) > 6:
+            fails.append(dict(key=f"timing:{name}", seconds=[round(x, 3) for x in times]))
     return _rec("seam/robustness", f"{N} token-level mutations / token soups (every non-Lark exception is a failure); all block types as root; doubling-time experiment on 5 repetitive / adversarial shapes (ratio <= 3)", n, fails)
 
 
@@ -602,9 +632,10 @@ def b_purity(tier, seed):
             b = MapfileToDict().transform(Parser().parse(text))
             if pickle.dumps(plain(a)) != pickle.dumps(plain(b)) or pp.pprint(a) != PrettyPrinter().pprint(b):
                 fails.append(dict(key="reuse:" + key))
-            if i % 4 == 0:
-                ca = mc.transform(pc.parse("# c1\n" + text))
-                cb = MapfileToDict(include_comments=True).transform(Parser(include_comments=True).parse("# c1\n" + text))
+            if i % 2 == 0:
+                ctext = "# c1\n" + text + ("\n# trailing, after the last block" if i % 4 == 0 else "")
+                ca = mc.transform(pc.parse(ctext))
+                cb = MapfileToDict(include_comments=True).transform(Parser(include_comments=True).parse(ctext))
                 if json.dumps(ca, default=str) != json.dumps(cb, default=str):
                     fails.append(dict(key="reuse-comments:" + key))
             ver = rnd.choice([None, 5.0, 7.6, 8.0])
